@@ -58,10 +58,14 @@ macro_rules! regroup {
 macro_rules! regroup_empty {
     ($name:ident, $T:ty, $N:ty, $n:literal, $M:ty, $m:literal, $u:literal) => {
         harness! { unwind $u, fn $name() {
-            let nested: GenericArray<GenericArray<$T, $N>, $M> = GenericArray::generate(|_| sym_ga());
+            let mut nested: GenericArray<GenericArray<$T, $N>, $M> = GenericArray::generate(|_| sym_ga());
             {
                 let f = (&nested).flatten();
                 assert!(f.len() == 0);
+            }
+            {
+                let f = (&mut nested).flatten();
+                assert!(f.len() == 0, "flattened &mut view of an empty shape is not empty");
             }
             let flat = nested.flatten();
             assert!(flat.len() == $n * $m && flat.len() == 0);
